@@ -1,10 +1,10 @@
 package main
 
 import (
-	"runtime/pprof"
 	"encoding/json"
 	"fmt"
 	"os"
+	"runtime/pprof"
 	"sort"
 	"strings"
 )
@@ -148,4 +148,3 @@ func printResult(res *HarnessResult) {
 		fmt.Printf("   SOLVER-ERROR %s\n", e)
 	}
 }
-
